@@ -42,8 +42,11 @@ def gen_cases(tier, seed):
     # one, version left to the library, every mode and level - one character more has to move on to the next
     # version / a lower level
     for (v, lv, mode, n) in gen.boundaries(('numeric', 'alphanumeric', 'byte', 'kanji')):
-        if v in (9, 10, 11, 26, 27, 28, 40):
-            for cnt in (n, n + 1):
+        if v in (9, 10, 11, 26, 27, 28, 40) or (not isinstance(v, str) and v >= 10 and mode != 'byte'):
+            # (beyond the steps themselves: a length computed with the indicator size of the previous range is 2 bits
+            # short, which matters only where one more character exceeds the capacity by 1-2 bits - some version / level
+            # / mode combinations of each range, so all of them are kept)
+            for cnt in ((n, n + 1) if v in (9, 10, 11, 26, 27, 28, 40) else (n + 1,)):
                 cases.append(common.mk(gen.content_for_bits(mode, cnt), tag='boost-cci-step', error=lv, micro=False))
                 if lv == 'L':
                     cases.append(common.mk(gen.content_for_bits(mode, cnt), tag='boost-cci-step', micro=False))
